@@ -449,6 +449,68 @@ def _full_adjacent_scan(g, cmpc):
     return True
 
 
+def walk_complete(chk, prog, dups):
+    """K2-walk: the pass that sorts and checks sibling names reaches every directory.  Recursion over all children is
+    complete by construction.  An iterative walk that climbs back through parent links must not step to the 'next' of an
+    ancestor without having tested that it exists -- otherwise the cursor becomes NULL below the top and the walk ends
+    although later siblings of the ancestors were never visited."""
+    n = 0
+    unit_fns = [g for g in prog.functions() if g.unit.src.startswith("bin/rdsquashfs/") and not g.decl]
+    for g in unit_fns:
+        g.build()
+        callees = {prog.fn(c.callee, g.unit) for c in g.calls() if c.callee}
+        if not (g in dups or any(d in callees for d in dups)):
+            continue
+        recursive = any(prog.fn(c.callee, g.unit) is g for c in g.calls() if c.callee)
+        parent_loads = [i for i in g.insts() if i.op == "load" and _fld_name(i.ops[0]) == "parent"]
+        if not parent_loads:
+            if recursive or g in dups:
+                n += 1
+                chk.analysed(g)
+                chk.ok("K2-walk", "%s:traversal" % g.name, g, "every directory is visited by recursion over all children" if recursive
+                       else "checks the children of the directory it is given")
+            continue
+        chk.analysed(g)
+        for (h, body) in g.loops:
+            for P in h.insts:
+                if P.op != "phi" or not P.ty.endswith("sqfs_tree_node_t*"):
+                    continue
+                for val, pred in zip(P.ops, P.x["inc"]):
+                    if pred not in body:
+                        continue
+                    v = strip_casts(val)
+                    if not (v.is_inst and v.op == "load" and _fld_name(v.ops[0]) == "next"):
+                        continue
+                    x = strip_casts(strip_casts(v.ops[0]).ops[0])
+                    climbs = any(y in parent_loads for y in backward_slice(x, phi_control=False, limit=100))
+                    if not climbs:
+                        continue
+                    n += 1
+                    inst = "%s:step-to-next@%d" % (g.name, v.line)
+                    ok = False
+                    for (cond, outcome, br) in g.guards_at(v.bb):
+                        if cond.is_inst and cond.op == "icmp" and cond.ops[1].is_const and cond.ops[1].is_null:
+                            t = strip_casts(cond.ops[0])
+                            if t.is_inst and t.op == "load" and _fld_name(t.ops[0]) == "next" and \
+                                    strip_casts(strip_casts(t.ops[0]).ops[0]) is x and ((cond.pred == "ne") == (outcome is True)):
+                                ok = True
+                    if ok:
+                        chk.ok("K2-walk", inst, v, "after climbing to a parent the walk moves on to its next sibling only if there is one")
+                    else:
+                        chk.violation("K2-walk", inst, v, "after climbing back to a parent the walk steps to its 'next' without having tested "
+                                      "that it exists: the cursor becomes NULL below the top of the tree and the remaining directories are "
+                                      "never sorted or checked for duplicate names")
+    return n
+
+
+def _fld_name(p):
+    p = strip_casts(p)
+    if p.is_inst and p.op == "getelementptr":
+        fl = p.field()
+        return fl[1] if fl else None
+    return None
+
+
 def find_dup_check(prog):
     """the function that rejects duplicate sibling names: strcmp over two node names with a failing return on equality"""
     res = []
@@ -505,7 +567,45 @@ def ordering_rule(chk, prog, mset):
         return
     sort_agrees_with_dupcheck(chk, prog, dups)
     sort_has_no_shortcut(chk, prog, dups)
-    dup_calls = [c for c in main.calls() if prog.fn(c.callee or "", main.unit) in dups]
+    # the check may sit in a helper of the function main calls: a function counts if it is the check itself or hands the
+    # failure of one on (on the failure edge of that call it cannot return 0)
+    from ..errflow import failure_edges, ret_sources
+    memo = {}
+
+    def propagates(g, depth=0):
+        if g in dups:
+            return True
+        if g in memo:
+            return memo[g]
+        memo[g] = False
+        if g is None or g.decl or depth > 4 or not g.unit.src.startswith("bin/rdsquashfs/"):
+            return False
+        g.build()
+        zero = {b for (v, b) in ret_sources(g) if strip_casts(v).is_const and strip_casts(v).is_int and strip_casts(v).sval == 0}
+        for c2 in g.calls():
+            h = prog.fn(c2.callee, g.unit) if c2.callee else None
+            if h is None or h is g or isinstance(h, ExternFn) or not propagates(h, depth + 1):
+                continue
+            fe = failure_edges(g, c2)
+            if not fe:
+                continue
+            okp = True
+            for (succ, fact) in fe:
+                seenb, stack = set(), [succ]
+                while stack:
+                    b = stack.pop()
+                    if b in seenb:
+                        continue
+                    seenb.add(b)
+                    if b in zero and not any(i.op == "call" for i in b.insts):
+                        okp = False
+                    stack.extend(b.succs)
+            if okp:
+                memo[g] = True
+        return memo[g]
+    dup_calls = [c for c in main.calls() if c.callee and prog.fn(c.callee, main.unit) is not None and
+                 not isinstance(prog.fn(c.callee, main.unit), ExternFn) and propagates(prog.fn(c.callee, main.unit))]
+    walk_complete(chk, prog, dups)
     mcalls = []
     for c in main.calls():
         g = prog.fn(c.callee or "", main.unit) if c.callee else None
@@ -689,6 +789,7 @@ def run(chk):
     chk.floor("K1-sanitise", 5)
     chk.floor("K12-flags", 5)
     chk.floor("K2-sorttotal", 1)
+    chk.floor("K2-walk", 1)
     chk.floor("K1-order", 5)
     chk.floor("K1-cmdline", 4)
     chk.floor("K1-getpath", 2)
